@@ -387,7 +387,7 @@ func (g *c02Run) emitRootArr(arr []*Doc, chain []c02Pred, cls string) {
 	want := c02Keep(arr, chain, root)
 	s := g.style()
 	st := s.st
-	g.c.Do(Case{Q: "$" + c02ChainText(chain), D: render(root, &st), Cls: cls, InDomain: true, XK: "logical", X: logicalDoc(want)})
+	g.c.DoR(Case{Q: "$" + c02ChainText(chain), D: render(root, &st), Cls: cls, InDomain: true, XK: "logical", X: logicalDoc(want)})
 }
 
 // emitObj: `$.o<chain>` on {o: obj, ...extra}, or `$<chain>` on the object itself when atRoot (extra is then part of it)
